@@ -45,5 +45,6 @@ from units_air import *  # noqa
 from units_crypto import *  # noqa
 from units_verifier import *  # noqa
 from units_fri import *  # noqa
+from units_prover import *  # noqa
 
 import props_meta  # noqa
